@@ -14,9 +14,9 @@ TIERS = {
     'quick': dict(shards=8, max_dnas=6, family_stride=4, random=26, dnas=4,
                   iter_max=24, corrupt=2, max_nodes=45, history=6,
                   family_history=3, timeout_s=600),
-    'thorough': dict(shards=16, max_dnas=24, family_stride=1, random=200,
-                     dnas=8, iter_max=60, corrupt=3, max_nodes=60, history=12,
-                     family_history=4, timeout_s=3000, case_timeout_s=300),
+    'thorough': dict(shards=16, max_dnas=24, family_stride=1, random=190,
+                     dnas=8, iter_max=60, corrupt=3, max_nodes=60, history=8,
+                     family_history=3, timeout_s=3000, case_timeout_s=300),
 }
 RULE = ('case = one template description (gen/templates.py) with a `where` '
         'filter. Part 1: the bounded family of search-space descriptions of '
@@ -27,7 +27,8 @@ RULE = ('case = one template description (gen/templates.py) with a `where` '
         'rendered random spaces (floats, custom and evolvable placeholders, '
         'names, depth <= 2), objects with placeholders bound to typed fields, '
         'tag / class filters, plain-container roots, deliberately '
-        'indistinguishable candidates; pg.Dict / pg.List with a value spec whose '
+        'indistinguishable candidates; pg.Dict / pg.List with a value spec (and '
+        'models.Bounds objects) whose '
         'numeric bounds are boundary values (0, 0.0, -0.0, equal min/max, '
         'noneable) holding floatv / oneof / manyof whose ranges end on, just '
         'inside or just outside the bounds (the reference knows whether the '
